@@ -173,3 +173,50 @@ def REv.target (t : Tables) : REv → Option Nat
   | .drainAck a => some a | .drainDps a => some a | .drainDpsU a => some a | .drainAckc a => some a | .drainMeta a _ => some a
 
 end Iscp.Corr
+
+/-! ### the typed wrappers: correlator + routing tables composed (Send*Request of wire/client_conn.go) -/
+namespace Iscp.Corr
+
+/-- parameters a request carries that its wrapper uses after the response arrived -/
+structure ReqArgs where
+  sid : Nat := 0        -- StreamID of resume/close requests
+  alias : Nat := 0      -- DesiredStreamIDAlias of downstream open/resume
+deriving Repr
+
+structure Wire where
+  c : St := {}
+  t : Tables := {}
+  args : List (Nat × ReqArgs) := []     -- caller ↦ arguments of its outstanding request
+deriving Repr
+
+/-- table update performed by the wrapper once its (correctly typed) response arrived.
+    `rsid`/`ralias` are AssignedStreamID / AssignedStreamIDAlias of the response (where it has them). -/
+def afterResponse (t : Tables) (k : Kind) (a : ReqArgs) (rsid ralias : Nat) : Tables :=
+  match k with
+  | .upOpen => (rstep t (.openUp rsid ralias)).1
+  | .upResume => (rstep t (.openUp a.sid ralias)).1
+  | .upClose => (rstep t (.closeUp a.sid)).1
+  | .downOpen => (rstep t (.openDown rsid a.alias)).1
+  | .downResume => (rstep t (.openDown a.sid a.alias)).1
+  | .downClose => (rstep t (.closeDown a.sid)).1
+  | .metadata => t
+  | .ping => t
+
+def wreq (w : Wire) (caller : Nat) (k : Kind) (a : ReqArgs) : Wire × Out :=
+  let (c', o) := step w.c (.req caller k)
+  ({ w with c := c', args := alPut caller a w.args }, o)
+
+def wresp (w : Wire) (id : Nat) (rk : RKind) (rsid ralias : Nat) : Wire × Out :=
+  let kind? := (w.c.waiting.find? (fun x => alGet id w.c.pending = some x.caller ∧ x.id = id)).map (·.kind)
+  let (c', o) := step w.c (.resp id rk)
+  match o, kind? with
+  | .delivered caller _, some k =>
+    let a := (alGet caller w.args).getD {}
+    ({ w with c := c', t := afterResponse w.t k a rsid ralias }, o)
+  | _, _ => ({ w with c := c' }, o)
+
+def wcancel (w : Wire) (caller : Nat) : Wire × Out :=
+  let (c', o) := step w.c (.cancel caller)
+  ({ w with c := c' }, o)
+
+end Iscp.Corr
